@@ -132,9 +132,8 @@ let show_rel = function
 
 let as_int_z = function NInt z -> z | _ -> failwith "mkrat expects integers"
 
-let guard_names = ["inf-nan"; "inf-then-nan"; "dbl-times-int0"; "zoo-times-complex";
-                   "badd-zero-float"; "badd-zero-sum"; "rat-div-cplx"; "zero-pow-neg";
-                   "equal-diffkind"; "inexact-conv"; "dblinf-infty"]
+let guard_names = ["dbl-times-int0"; "zoo-times-complex"; "badd-zero-float"; "badd-zero-sum";
+                   "rat-div-cplx"; "inexact-conv"; "dblinf-infty"]
 
 let run_line (line : string) : string =
   match List.filter (fun s -> s <> "") (String.split_on_char ' ' line) with
